@@ -161,6 +161,7 @@ V('c19-p-reset-clear', 'C19', 'preserve', [(F, "    [\n        remove_plugin(sco
 from . import variants_tpl as _tpl      # noqa: E402
 _tpl.register(V)
 _tpl.register2(V)
+_tpl.register3(V)
 
 # ---------------------------------------------------------------------------- global preserving rewrites
 _ALL = ['C01', 'C02', 'C03', 'C04', 'C05', 'C06', 'C07', 'C08', 'C09', 'C11', 'C12', 'C13', 'C14', 'C15', 'C16',
@@ -179,6 +180,9 @@ for _p in _ALL:
     VARIANTS.append({'id': f'{_p.lower()}-p-rename-vm-params', 'prop': _p, 'kind': 'preserve', 'edits': [],
                      'transform': ('rename', F, {'stack': 'stk', 'cache': 'regs', 'sig_flag': 'sflag', 'constraint': 'bound',
                                                  'n_items': 'how_many', 'skey_seed': 'seed_bytes'})})
+    VARIANTS.append({'id': f'{_p.lower()}-p-rename-locals-tools', 'prop': _p, 'kind': 'preserve', 'edits': [],
+                     'transform': ('rename', T, {'root': 'tap_root', 'src': 'template_src', 'sig': 'signature_bytes',
+                                                 'left_data': 'lhs_bytes', 'right_type': 'rhs_tag'})})
     VARIANTS.append({'id': f'{_p.lower()}-p-rename-locals-parser', 'prop': _p, 'kind': 'preserve', 'edits': [],
                      'transform': ('rename', P, {'code_lines': 'listing', 'def_lines': 'fn_lines', 'if_len': 'then_len',
                                                  'symbols_to_advance': 'consumed', 'search_idx': 'stop_at',
